@@ -393,6 +393,17 @@ var nestedProp = vp.Register(vp.Prop[NestedCase]{
 	Check: checkNested,
 })
 
+// TestConcurrent (variant "conc", -race): the sequential oracle from 8
+// goroutines at once, each on its own objects; objects of one type must not
+// share mutable state.
+func TestConcurrent(t *testing.T) {
+	if vp.Variant() != "conc" {
+		t.Skip("runs in the conc variant (-race)")
+	}
+	vp.RunConcurrent(t, readProp, 200, 32, 8)
+	vp.RunConcurrent(t, writeProp, 200, 32, 8)
+}
+
 func TestNested(t *testing.T) { vp.Run(t, nestedProp) }
 func TestRead(t *testing.T)   { vp.Run(t, readProp) }
 func TestWrite(t *testing.T)  { vp.Run(t, writeProp) }
